@@ -304,6 +304,13 @@ func (ex *Exec) completeModel(m map[string]string) map[string]string {
 	p := ex.path
 	for i, t := range p.nondets {
 		raw, ok := m[t.Name]
+		if t.Sort.K == SStr {
+			if !ok {
+				raw = "unconstrained_" + t.Name
+			}
+			out[p.ndNames[i]] = "s_" + sanitize(raw)
+			continue
+		}
 		var bits uint64
 		if ok {
 			bits, ok = modelBits(raw, t.Sort)
